@@ -7,29 +7,314 @@ import (
 	"golang.org/x/tools/go/ssa"
 )
 
-// splice.go: guards evaluated by a NEW helper function (one the reference tree does not
-// have). A refactoring that moves a check into `func validateX(...) error` or
-// `func isY(...) bool` leaves the handler with a branch on the helper's result only. The
-// cut engine then walks THROUGH the helper: a block B of the caller that ends in
-// `if helper(...) …` continues at the helper's entry, and each return of the helper
-// continues at the successor(s) of B that its result selects (constant true/false,
-// provably nil / provably non-nil error; anything else: both). The helper's own branches
-// take part in cut / fail-arm / exactness queries with their atoms rewritten into the
-// caller's frame (parameters replaced by the argument terms). One level deep, and
-// context-sensitive in the call site (a helper used at two sites is walked once per site).
+// splice.go: walking THROUGH new helper functions (ones the reference tree does not have).
+//
+// A refactoring that moves checks or steps of a handler into new functions leaves the
+// handler with calls. The cut engine's graph therefore makes a DETOUR through every new
+// helper that has branches of its own:
+//   - guard detour: a block B ends in `if helper(...) …` (or `if err := helper(…); err != nil`,
+//     `v, ok := helper(…); if !ok`): B's branch is decided by the helper, so control goes to
+//     the helper's entry and each of its returns continues at the successor(s) of B its result
+//     selects (constant true/false; provably nil / provably non-nil error; otherwise both);
+//   - procedure detour: any other call of such a helper in B: before B's terminator is taken,
+//     control runs through the helper and comes back. (The instructions of B after the call
+//     count as reached with B itself: that can only add paths.)
+// Detours nest (a helper that calls a helper), up to three levels; each detour is specific to
+// its call site and enclosing detour, so one helper used at two sites is walked once per site
+// with that site's arguments. The helper's branches take part in cut / fail-arm / exactness
+// queries with their atoms rewritten into the root function's frame.
 
 type spliceSite struct {
-	B    *ssa.BasicBlock // caller block ending in the If on the helper's result
-	H    *ssa.Function
-	Call *ssa.Call
-	ret  map[*ssa.BasicBlock][]int // helper return block -> successor slots of B it may continue at
+	B      *ssa.BasicBlock // block of the enclosing frame the detour is attached to
+	H      *ssa.Function
+	Call   *ssa.Call
+	parent *spliceSite // enclosing detour (nil: B is a block of the root function)
+	idx    int         // position among B's detours
+	guard  bool        // B's terminating If tests the helper's result
+	ret    map[*ssa.BasicBlock][]int // guard: helper return block -> successor slots of B
+	env    []*Term     // the helper's parameters as terms of the root frame
+	depth  int
 }
 
-var (
-	spliceAt   = map[*ssa.BasicBlock]*spliceSite{}
-	spliceDone = map[*ssa.Function]bool{}
-	spliceOf   = map[*ssa.Function][]*spliceSite{}
-)
+type detourKey struct {
+	b      *ssa.BasicBlock
+	parent *spliceSite
+}
+
+var detourCache = map[detourKey][]*spliceSite{}
+
+const maxDetourDepth = 3
+
+func branchCount(h *ssa.Function) int {
+	n := 0
+	for _, hb := range h.Blocks {
+		if len(hb.Instrs) > 0 {
+			if _, ok := hb.Instrs[len(hb.Instrs)-1].(*ssa.If); ok {
+				n++
+			}
+		}
+	}
+	return n
+}
+
+// detours lists, in execution order, the detours attached to block b entered in context
+// parent.
+func (p *Prog) detours(b *ssa.BasicBlock, parent *spliceSite) []*spliceSite {
+	key := detourKey{b, parent}
+	if d, ok := detourCache[key]; ok {
+		return d
+	}
+	detourCache[key] = nil
+	depth := 0
+	if parent != nil {
+		depth = parent.depth
+	}
+	if depth >= maxDetourDepth || len(b.Instrs) == 0 {
+		return nil
+	}
+	fn := b.Parent()
+	onStack := func(h *ssa.Function) bool {
+		if h == fn {
+			return true
+		}
+		for s := parent; s != nil; s = s.parent {
+			if s.H == h {
+				return true
+			}
+		}
+		return false
+	}
+	x := p.tx(fn)
+	mkEnv := func(call *ssa.Call) []*Term {
+		var env []*Term
+		for _, a := range call.Call.Args {
+			t := x.Of(a, call)
+			if parent != nil {
+				t = substTerm(markHelperCounters(t), parent.env)
+			}
+			env = append(env, t)
+		}
+		return env
+	}
+	// the guard detour of b's terminator
+	var guardSite *spliceSite
+	if iff, ok := b.Instrs[len(b.Instrs)-1].(*ssa.If); ok {
+		if call, idx, isErr, trueWhenPos, ok := condHelperCall(iff.Cond); ok && call.Parent() == fn {
+			if h := call.Call.StaticCallee(); p.newHelper(h) && !onStack(h) && branchCount(h) > 0 {
+				hx := p.tx(h)
+				p.info(h)
+				sp := &spliceSite{B: b, H: h, Call: call, parent: parent, guard: true, ret: map[*ssa.BasicBlock][]int{}, depth: depth + 1}
+				for _, hb := range h.Blocks {
+					if len(hb.Instrs) == 0 {
+						continue
+					}
+					r, ok := hb.Instrs[len(hb.Instrs)-1].(*ssa.Return)
+					if !ok {
+						continue
+					}
+					known, positive := false, false
+					if idx < len(r.Results) {
+						if isErr {
+							switch p.exitKind(hx, r) {
+							case "ok":
+								known, positive = true, true
+							case "error":
+								known, positive = true, false
+							}
+							if idx != len(r.Results)-1 {
+								known = false
+							}
+						} else if k, ok := r.Results[idx].(*ssa.Const); ok && k.Value != nil && k.Value.Kind() == constant.Bool {
+							known, positive = true, constant.BoolVal(k.Value)
+						}
+					}
+					if !known {
+						sp.ret[hb] = []int{0, 1}
+						continue
+					}
+					slot := 1
+					if positive == trueWhenPos {
+						slot = 0
+					}
+					sp.ret[hb] = []int{slot}
+				}
+				sp.env = mkEnv(call)
+				guardSite = sp
+			}
+		}
+	}
+	var out []*spliceSite
+	for _, in := range b.Instrs {
+		call, ok := in.(*ssa.Call)
+		if !ok {
+			continue
+		}
+		if guardSite != nil && guardSite.Call == call {
+			continue
+		}
+		h := call.Call.StaticCallee()
+		if !p.newHelper(h) || onStack(h) || branchCount(h) == 0 {
+			continue
+		}
+		if p.hasGuardDetour(call) {
+			continue // walked where its result is tested
+		}
+		p.info(h)
+		out = append(out, &spliceSite{B: b, H: h, Call: call, parent: parent, depth: depth + 1, env: mkEnv(call)})
+	}
+	if guardSite != nil {
+		out = append(out, guardSite)
+	}
+	for i, sp := range out {
+		sp.idx = i
+	}
+	detourCache[key] = out
+	return out
+}
+
+var guardDetourCache = map[*ssa.Call]int{}
+
+// hasGuardDetour: is the result of this call tested by the terminating If of some block
+// of its function (so that it is walked there rather than at the call)?
+func (p *Prog) hasGuardDetour(call *ssa.Call) bool {
+	if v, ok := guardDetourCache[call]; ok {
+		return v == 1
+	}
+	guardDetourCache[call] = 0
+	for _, b := range call.Parent().Blocks {
+		if len(b.Instrs) == 0 {
+			continue
+		}
+		if iff, ok := b.Instrs[len(b.Instrs)-1].(*ssa.If); ok {
+			if c, _, _, _, ok := condHelperCall(iff.Cond); ok && c == call {
+				guardDetourCache[call] = 1
+				return true
+			}
+		}
+	}
+	return false
+}
+
+// guardDetour: the guard detour of block b in context parent (nil if its terminator is
+// not decided by a new helper).
+func (p *Prog) guardDetour(b *ssa.BasicBlock, parent *spliceSite) *spliceSite {
+	ds := p.detours(b, parent)
+	if n := len(ds); n > 0 && ds[n-1].guard {
+		return ds[n-1]
+	}
+	return nil
+}
+
+var splicesCache = map[*ssa.Function][]*spliceSite{}
+
+// splices: every detour reachable from fn's blocks (nested ones included).
+func (p *Prog) splices(fn *ssa.Function) []*spliceSite {
+	if s, ok := splicesCache[fn]; ok {
+		return s
+	}
+	var out []*spliceSite
+	var walk func(f *ssa.Function, parent *spliceSite)
+	walk = func(f *ssa.Function, parent *spliceSite) {
+		for _, b := range f.Blocks {
+			for _, sp := range p.detours(b, parent) {
+				out = append(out, sp)
+				walk(sp.H, sp)
+			}
+		}
+	}
+	walk(fn, nil)
+	splicesCache[fn] = out
+	return out
+}
+
+// spliceIfs: the helper's branches as ifInfos in the root frame.
+func (p *Prog) spliceIfs(x *TX, sp *spliceSite) []ifInfo {
+	hx := p.tx(sp.H)
+	var out []ifInfo
+	for _, hb := range sp.H.Blocks {
+		if len(hb.Instrs) == 0 {
+			continue
+		}
+		if iff, ok := hb.Instrs[len(hb.Instrs)-1].(*ssa.If); ok {
+			t := substTerm(markHelperCounters(hx.Of(iff.Cond, iff)), sp.env)
+			out = append(out, ifInfo{in: iff, atom: atomOfTerm(t), site: sp, t: t})
+		}
+	}
+	return out
+}
+
+// Node is a position in the walked graph: a block, the detour through which it was
+// entered (nil in the root function's own blocks), and how many of the block's own
+// detours have been made already.
+type Node struct {
+	B    *ssa.BasicBlock
+	Site *spliceSite
+	Step int
+}
+
+func nodesOf(bs []*ssa.BasicBlock) []Node {
+	var out []Node
+	for _, b := range bs {
+		out = append(out, Node{B: b})
+	}
+	return out
+}
+
+// enter: the node(s) control continues at when edge `from --slot-->` is taken in
+// context site (applies jump threading on boolean-constant phis).
+func enter(from *ssa.BasicBlock, slot int, site *spliceSite, cut map[Edge]bool) []Node {
+	if cut[Edge{from, slot, site}] {
+		return nil
+	}
+	s := from.Succs[slot]
+	if th, ok := threadMap[s]; ok {
+		if ts, ok := th[from]; ok {
+			if cut[Edge{s, ts, site}] {
+				return nil
+			}
+			return []Node{{B: s.Succs[ts], Site: site}}
+		}
+	}
+	return []Node{{B: s, Site: site}}
+}
+
+// succNodes: successors of n in the walked graph with the cut edges deleted.
+func succNodes(n Node, cut map[Edge]bool) []Node {
+	p := curProg
+	b := n.B
+	var ds []*spliceSite
+	if p != nil {
+		ds = p.detours(b, n.Site)
+	}
+	// next detour of this block
+	if n.Step < len(ds) {
+		sp := ds[n.Step]
+		if sp.guard && (cut[Edge{b, 0, n.Site}] || cut[Edge{b, 1, n.Site}]) {
+			// the branch itself is named by the guard: take it as an ordinary branch
+		} else {
+			return []Node{{B: sp.H.Blocks[0], Site: sp}}
+		}
+	}
+	// a helper's return: back to the block the detour is attached to
+	if n.Site != nil && len(b.Instrs) > 0 {
+		if _, isRet := b.Instrs[len(b.Instrs)-1].(*ssa.Return); isRet {
+			sp := n.Site
+			if sp.guard {
+				var out []Node
+				for _, s := range sp.ret[b] {
+					out = append(out, enter(sp.B, s, sp.parent, cut)...)
+				}
+				return out
+			}
+			return []Node{{B: sp.B, Site: sp.parent, Step: sp.idx + 1}}
+		}
+	}
+	var out []Node
+	for i := range b.Succs {
+		out = append(out, enter(b, i, n.Site, cut)...)
+	}
+	return out
+}
 
 // condHelperCall: does the branch condition test the result of a call? Returns the
 // call, which result index is tested, whether it is an error-vs-nil test, and whether
@@ -78,157 +363,6 @@ func condHelperCall(cond ssa.Value) (call *ssa.Call, idx int, isErr bool, trueWh
 		return nil, 0, false, false, false
 	}
 	return c, i, false, pos, true
-}
-
-func (p *Prog) splices(fn *ssa.Function) []*spliceSite {
-	if spliceDone[fn] {
-		return spliceOf[fn]
-	}
-	spliceDone[fn] = true
-	for _, b := range fn.Blocks {
-		if len(b.Instrs) == 0 {
-			continue
-		}
-		iff, ok := b.Instrs[len(b.Instrs)-1].(*ssa.If)
-		if !ok {
-			continue
-		}
-		call, idx, isErr, trueWhenPos, ok := condHelperCall(iff.Cond)
-		if !ok || call.Parent() != fn {
-			continue
-		}
-		h := call.Call.StaticCallee()
-		if !p.newHelper(h) || h == fn {
-			continue
-		}
-		nIf := 0
-		for _, hb := range h.Blocks {
-			if len(hb.Instrs) > 0 {
-				if _, ok := hb.Instrs[len(hb.Instrs)-1].(*ssa.If); ok {
-					nIf++
-				}
-			}
-		}
-		if nIf == 0 {
-			continue // straight-line helper: handled by term inlining
-		}
-		// (helpers that act are walked through as well: their effect sites are then targets in
-		// their own right, see FC.expandSpliced)
-		hx := p.tx(h)
-		p.info(h) // threading inside the helper
-		sp := &spliceSite{B: b, H: h, Call: call, ret: map[*ssa.BasicBlock][]int{}}
-		for _, hb := range h.Blocks {
-			if len(hb.Instrs) == 0 {
-				continue
-			}
-			r, ok := hb.Instrs[len(hb.Instrs)-1].(*ssa.Return)
-			if !ok {
-				continue
-			}
-			known, positive := false, false
-			if idx < len(r.Results) {
-				if isErr {
-					switch p.exitKind(hx, r) {
-					case "ok":
-						known, positive = true, true
-					case "error":
-						known, positive = true, false
-					}
-					if idx != len(r.Results)-1 {
-						known = false
-					}
-				} else if k, ok := r.Results[idx].(*ssa.Const); ok && k.Value != nil && k.Value.Kind() == constant.Bool {
-					known, positive = true, constant.BoolVal(k.Value)
-				}
-			}
-			if !known {
-				sp.ret[hb] = []int{0, 1}
-				continue
-			}
-			slot := 1
-			if positive == trueWhenPos {
-				slot = 0
-			}
-			sp.ret[hb] = []int{slot}
-		}
-		spliceAt[b] = sp
-		spliceOf[fn] = append(spliceOf[fn], sp)
-	}
-	return spliceOf[fn]
-}
-
-// spliceIfs: the helper's branches as ifInfos in the caller's frame.
-func (p *Prog) spliceIfs(x *TX, sp *spliceSite) []ifInfo {
-	hx := p.tx(sp.H)
-	var env []*Term
-	for _, a := range sp.Call.Call.Args {
-		env = append(env, x.Of(a, sp.Call))
-	}
-	var out []ifInfo
-	for _, hb := range sp.H.Blocks {
-		if len(hb.Instrs) == 0 {
-			continue
-		}
-		if iff, ok := hb.Instrs[len(hb.Instrs)-1].(*ssa.If); ok {
-			t := substTerm(markHelperCounters(hx.Of(iff.Cond, iff)), env)
-			out = append(out, ifInfo{in: iff, atom: atomOfTerm(t), site: sp, t: t})
-		}
-	}
-	return out
-}
-
-// Node is a position in the spliced control-flow graph: a block, and the call site
-// through which a helper block was entered (nil in the function's own blocks).
-type Node struct {
-	B    *ssa.BasicBlock
-	Site *spliceSite
-}
-
-func nodesOf(bs []*ssa.BasicBlock) []Node {
-	var out []Node
-	for _, b := range bs {
-		out = append(out, Node{b, nil})
-	}
-	return out
-}
-
-// enter: the node(s) control continues at when edge `from --slot-->` is taken in
-// context site (applies jump threading on boolean-constant phis).
-func enter(from *ssa.BasicBlock, slot int, site *spliceSite, cut map[Edge]bool) []Node {
-	if cut[Edge{from, slot, site}] {
-		return nil
-	}
-	s := from.Succs[slot]
-	if th, ok := threadMap[s]; ok {
-		if ts, ok := th[from]; ok {
-			if cut[Edge{s, ts, site}] {
-				return nil
-			}
-			return []Node{{s.Succs[ts], site}}
-		}
-	}
-	return []Node{{s, site}}
-}
-
-// succNodes: successors of n in the spliced graph with the cut edges deleted.
-func succNodes(n Node, cut map[Edge]bool) []Node {
-	b := n.B
-	if n.Site != nil {
-		if slots, ok := n.Site.ret[b]; ok {
-			var out []Node
-			for _, s := range slots {
-				out = append(out, enter(n.Site.B, s, nil, cut)...)
-			}
-			return out
-		}
-	} else if sp := spliceAt[b]; sp != nil && !cut[Edge{b, 0, nil}] && !cut[Edge{b, 1, nil}] {
-		return []Node{{sp.H.Blocks[0], sp}}
-	}
-	var out []Node
-	for i := range b.Succs {
-		out = append(out, enter(b, i, n.Site, cut)...)
-	}
-	return out
 }
 
 // markHelperCounters renames the loop counters of a spliced helper (#i0 -> #^i0): loop
